@@ -42,7 +42,9 @@ NAMED = [
 ]
 KNOWN_WITNESSES = {
     "C07-list-shapes": ['let r = [1] + ["a"];', 'let r = filter(func(x) => false, [1]) + filter(func(x) => false, ["a"]);'],
-    "C07-and-or-rhs": ["let x = true && 5;", 'let x = false || "s";'],
+    "C07-and-or-rhs": ["let x = true && 5;", 'let x = false || "s";', "let n = false && (not 5);"],
+    "C07-select-merge": ['let r = (select ("y", 0) => {x = {a = 1}, y = {a = 1, b = "s"}}).b;'],
+    "C07-dead-branch-narrowing": ['let f = func(x) => select (x is "int", "s") => {"true" = x + 1}; let r = f("a");'],
 }
 
 
@@ -83,9 +85,11 @@ def run(tier, seed):
     rng = ck.rng
     n = 2500 if tier == "quick" else 40000
     progs = []
+    asts = {}
     for i in range(n):
         p, _ = P.gen_program(rng, rng.randint(1, 8), max_depth=4, p_bad=0.0)
         progs.append(("generated", P.prog_text(p)))
+        asts[len(progs) - 1] = p
     # comparisons of values of the same kind but different structure (they evaluate to true / false)
     import values as V
     g = V.ValGen(rng)
@@ -107,7 +111,10 @@ def run(tier, seed):
     res = C.harness("stages", [t for _, t in progs])
     real = []
     stats = {"evaluate": 0, "rejected_known": {}, "named_constructs": len(NAMED)}
-    for (kind, text), r in zip(progs, res):
+    okm, mmsg = C.build_model_runner()
+    if not okm:
+        broken.append({"extraction": mmsg[-1500:]})
+    for idx, ((kind, text), r) in enumerate(zip(progs, res)):
         ev, chk = r.get("eval", {}), r.get("check", {})
         if "panic" in chk or "panic" in ev:
             real.append({"source": text, "why": "panic: %r" % (chk.get("panic") or ev.get("panic"))})
@@ -119,6 +126,13 @@ def run(tier, seed):
         stats["evaluate"] += 1
         if "err" in chk:
             cls = classify(text, chk["err"])
+            if kind.startswith("witness:"):
+                cls = kind.split(":", 1)[1]
+            elif cls and okm and idx in asts:
+                # the class must also be recognised by the classifier proved about the witnesses (shape/Shape.v known_c07_wide)
+                mo = C.model("shape_c07", ["(%s)" % " ".join(P.stmt_sexp(x) for x in asts[idx])])[0].split()
+                if len(mo) == 4 and mo[1] != "1":
+                    cls = None
             if cls and ck.is_known(cls):
                 stats["rejected_known"][cls] = stats["rejected_known"].get(cls, 0) + 1
                 continue
